@@ -27,6 +27,50 @@ def nontrivial(header, lines):
     return transit and expired and default
 
 
+def _retry_project(lines):
+    # of the c20retry traces C07 compares the deadlines only, relative to the call they belong to: the budget the
+    # caller gave (deadline - start instant) and by how much each attempt's deadline differs from the caller's
+    # (a run of attempts with the same shift counts once).  How many attempts there are, and hence at which
+    # instant later calls of the script start, is C20's business.
+    out = []
+    base = None
+    for l in lines:
+        t = l.split()
+        if t[:1] == ["op"]:
+            out.append(l)
+        elif t[:2] in (["obs", "start"], ["obs", "attempt"]):
+            kv = _kv(t[3:])
+            try:
+                d = int(kv["deadline"])
+                if t[1] == "start":
+                    base = d
+                    x = f"obs start budget={d - int(kv['at'])}"
+                else:
+                    x = f"obs attempt shift={d - base}"
+            except (KeyError, ValueError, TypeError):
+                x = l
+            if not (t[1] == "attempt" and out and out[-1] == x):
+                out.append(x)
+    return out
+
+
+def nontrivial_retry(header, lines):
+    # a retried call whose later attempt was made after virtual time had passed since the call started
+    # (so that a deadline re-based on the retry instant would differ from the caller's)
+    start = None
+    for l in lines:
+        t = l.split()
+        if t[:2] == ["obs", "start"]:
+            start = _kv(t[3:]).get("at")
+        elif t[:2] == ["obs", "attempt"] and start is not None:
+            try:
+                if int(t[2]) >= 2 and int(_kv(t[3:])["at"]) > int(start):
+                    return True
+            except (KeyError, ValueError):
+                continue
+    return False
+
+
 FAMILIES = [trace.Family(
     "c07", ["--scripts=400", "--len=14"], ["--scripts=20000", "--len=14"],
     nontrivial=nontrivial,
@@ -35,7 +79,15 @@ FAMILIES = [trace.Family(
          "chains of 1-3 real client+BaseChannel hops (json/bincode over duplex+LengthDelimitedCodec, in-memory) with "
          "random transit/work delays, handlers spawned or run inline; remaining durations from already-passed, 0, 1 ns "
          "up to ~95 years; non-trivial = a serialised hop with transit>0, an already-expired deadline and a default in "
-         "the same script; distinct by op sequence")]
+         "the same script; distinct by op sequence"),
+    trace.Family(
+        "c20retry", ["--scripts=300", "--len=40"], ["--scripts=15000", "--len=60"],
+        project=_retry_project, nontrivial=nontrivial_retry,
+        rule="a nested call issued through the real Retry stub (family c20retry of C20, projected to the caller's "
+             "context and the context the backend stub receives at every attempt): callers' deadlines from 0 ns to "
+             "30 days after the call, backend answers that take 0 ns .. 3 s of virtual time each, any number of "
+             "retries; every attempt must carry the caller's deadline itself (monitor rule tagged [C07]); "
+             "non-trivial = an attempt >= 2 made later than the call started")]
 
 ASSUMPTIONS = [
     "tarpc reads time only through verif_hooks::now() (cargo feature verif-hooks) = tokio's paused clock; synchronous "
@@ -49,6 +101,8 @@ ASSUMPTIONS = [
     "body runs, the ctx it receives is compared with it (a difference prints an obs line the model never produces)",
     "the span-scoped deadline returned by context::current() inside a handler needs a tracing-opentelemetry subscriber "
     "and is not exercised",
+    "c20retry: the backend stub behind Retry is a mock that records the Context it is called with (in memory: the "
+    "very same Instant must arrive); the hop from that stub to a server is the c07 family's subject",
 ]
 
 
